@@ -807,9 +807,19 @@ def _process_step_result_tick(
             if retries is not None:
                 _next_params = inspect.signature(retries.next).parameters
                 _seed_kwarg = {"seed": jitter_seed} if "seed" in _next_params else {}
-                delay = retries.next(
-                    elapsed_time, failures, result.exception, **_seed_kwarg
-                )
+                try:
+                    delay = retries.next(
+                        elapsed_time, failures, result.exception, **_seed_kwarg
+                    )
+                except Exception:
+                    # A raising retry policy must not take the control loop down without a
+                    # terminal event: stop retrying and fail through the normal path below.
+                    logger.error(
+                        "retry policy of step %s raised; not retrying",
+                        tick.step_name,
+                        exc_info=True,
+                    )
+                    delay = None
             else:
                 delay = None
             if delay is not None:
